@@ -37,6 +37,8 @@ CONSTANTS
     AttachDetached,         \* D4: the attach step of create runs in its own task
     PullHandsOnWakeup,      \* D7: a pull dropped while it waits for a mailbox permit re-notifies
     \* --- design mutations (must be FALSE in the real configurations)
+    RemoveSendOutsideDrainLoop,   \* mutation: the deleting actor first waits for room in the topic's mailbox
+                                  \* (not serving its own meanwhile) and only then drains while it waits for the answer
     NoRenotifyAfterPartialPull,
     SignalCreatedAfterPull,
     PostDoesNotNotify
@@ -279,10 +281,14 @@ SubHandle(s, r) ==
                  /\ sdeleter' = [sdeleter EXCEPT ![s] = r.from]
                  /\ UNCHANGED <<backlog, leased, permit, waiters, sig, pc, res, got>>
 
+\* The remove request of the deleting subscription s is no longer waiting for room in the topic's mailbox.
+RemoveEnqueued(s) == ~\E i \in 1..Len(tbox) : tbox[i].kind = "remove" /\ tbox[i].from = s /\ i > CAP
+
 SubTurn(s) ==
     /\ ~sclosed[s] /\ HasReady(sbox[s])
     /\ \/ sbusy[s] = "idle"
-       \/ (sbusy[s] = "delwait" /\ DeleteDrainsMailbox)     \* repaired: keeps serving (no-ops) while waiting
+       \/ (sbusy[s] = "delwait" /\ DeleteDrainsMailbox      \* repaired: keeps serving (no-ops) while waiting
+           /\ (RemoveSendOutsideDrainLoop => RemoveEnqueued(s)))
     /\ sbox' = [sbox EXCEPT ![s] = Dequeue(@)]
     /\ SubHandle(s, NextReq(sbox[s]))
     /\ salso' = IF NextReq(sbox[s]).kind = "delete" /\ deleted[s] /\ sbusy[s] = "delwait" /\ SecondDeleteWaits
